@@ -1,2 +1,8 @@
-CHECKS = {}
+CHECKS = {
+ "C16": {
+  "text": "Bounded-exhaustive runtime contract: every CIGAR core of <=5 (quick) / <=7 (thorough) operations with lengths {1,3} x clip variants, plus random long CIGARs, is pushed through the real get_read_blocks / AlignmentInfo under an icontract post-condition that compares with an independent CIGAR walk; tail trimming is driven through the real add_polya_info with the real finder and with jointly-feasible injected tail positions and its post-conditions (non-empty, ordered, slice of the original, blocks parallel, tail position on the retained exon) are asserted. Exhaustive inside the bound, sampled outside.",
+  "note": "Trusted: the independent CIGAR walk in vlib/checks/c16.py, pysam record construction. Domain excludes N-delimited segments without aligned bases (dropped on purpose by the code).",
+  "technique": "runtime contracts (icontract post-condition + reference-model oracle) on the real functions, bounded-exhaustive + random workload",
+ },
+}
 NOT_APPLICABLE = {}
